@@ -338,6 +338,9 @@ STMTS = [
     'print(args, kwargs)',
     'functools.partial(F, *args, **kwargs)()',
     'return functools.partial(F, 1, *args, **kwargs)',
+    'def attempt(v, *, retries):\n    return F(v, *args, **kwargs)\nattempt(1, retries=2)',
+    'key = lambda s, *, key, reverse=False: F(*args, **kwargs)',
+    'def opt(v, w=F(*args), *, k=G(**kwargs), r):\n    return v',
     'return functools.partial(*args, **kwargs)',
     'p = functools.partial(*args)\nq = functools.partial(**kwargs)',
     'vals = [F(*args, **kwargs) for args in ((1,), (2,))]',
@@ -385,6 +388,9 @@ LAMBDAS = [
     'w = lambda *args, **kwargs: (yield)',
     'w, v = (lambda *args: F(*args)), (lambda **kwargs: F(**kwargs))',
     'w = functools.partial(lambda a, *args, **kwargs: F(*args, **kwargs), 1)',
+    'w = lambda *args, **kwargs: F(*args, **kwargs)\nw.__name__ = "renamed"\nw.__qualname__ = "renamed"',
+    'w = functools.wraps(G)(lambda *args, **kwargs: F(*args, **kwargs))',
+    'w = functools.update_wrapper(lambda a, *args, **kwargs: F(*args, **kwargs), G, assigned=("__name__", "__doc__"), updated=())',
 ]
 
 
@@ -437,6 +443,31 @@ def check_generated(case, stats):
         realfn.unload(g)
 
 
+class Untruthy(object):
+    """Instances whose truth value cannot be taken (array-like, lazy containers)."""
+    def __init__(self, how):
+        self.how = how
+
+    def __bool__(self):
+        if self.how == 'bool':
+            raise ValueError('the truth value of this object is ambiguous')
+        return False
+
+    def __len__(self):
+        if self.how == 'len':
+            raise RuntimeError('length not known yet')
+        return 0
+
+    def head(self, n=5):
+        return n
+
+    def fwd(self, *args, **kwargs):
+        return self.head(*args, **kwargs)
+
+    def __call__(self, a, *args, **kwargs):
+        return self.head(*args, **kwargs)
+
+
 class Hostile(object):
     """Objects whose attribute access misbehaves."""
     def __call__(self, a, *args, **kwargs):
@@ -463,6 +494,10 @@ def special_objects():
             o = getattr(mod, n)
             if callable(o):
                 out.append(('%s.%s' % (mod.__name__, n), o))
+    for how in ('bool', 'len', 'falsy'):
+        u = Untruthy(how)
+        out += [('Untruthy(%s).head' % how, u.head), ('Untruthy(%s).fwd' % how, u.fwd), ('Untruthy(%s)' % how, u),
+                ('partial(Untruthy(%s).fwd, 1)' % how, functools.partial(u.fwd, 1))]
     out += [('str.join', str.join), ('"".join', ''.join), ('dict.fromkeys', dict.fromkeys), ('[].append', [].append),
             ('object()', object()), ('Hostile()', Hostile()), ('Hostile', Hostile), ('partial(print)', functools.partial(print, 1)),
             ('partial(int, base=2)', functools.partial(int, base=2)), ('partial(Hostile())', functools.partial(Hostile(), 1)),
